@@ -42,7 +42,7 @@ def run(ctx, rep):
             if flags[num]:
                 rep.ok('C09.R6', '%s rule %d %r can match a newline and is flagged' % (v.name, num, pat))
             else:
-                rep.fail('C09.R6', 'C09.R6:eoltable:%s' % (pat if pat.startswith('<') else probe + ':' + pat), '%s rule %d' % (v.name, num),
+                rep.fail('C09.R6', 'C09.R6:eoltable:%s' % ('default-rule' if pat.startswith('<') else probe + ':' + pat), '%s rule %d' % (v.name, num),
                          'rule %r can match a newline but yy_rule_can_match_eol[%d] is 0: the scanner does not count the newlines this rule consumes' % (pat, num),
                          replay_input=v.spec(), variant=v.describe())
     return n
